@@ -21,7 +21,20 @@ class Option:
         self.arity_source = None
 
 
-def registered_options(mainf):
+def registered_options(mainf, _fallback=True):
+    """options registered with add_argument in mainf; when mainf registers none (the parser is built by a factory
+    function of the module: `_make_parser()`), the module-level functions of its module are searched instead"""
+    if _fallback:
+        own = registered_options(mainf, _fallback=False)
+        if own or getattr(mainf, 'module', None) is None:
+            return own
+        from .model import Func
+        out = {}
+        for st in mainf.module.tree.body:
+            if isinstance(st, ast.FunctionDef) and st is not mainf.node and st.name != mainf.node.name:
+                g = Func(mainf.module, None, st, 'function')
+                out.update(registered_options(g, _fallback=False))
+        return out
     opts = {}
     # locals that are another name of the registration method (add = cmd.add_argument) and keyword bundles
     # handed on with ** (multi = dict(action='append'))
